@@ -90,6 +90,8 @@ class Prop:
         outs = ctx.corr(ops, impl.step, 'armor', nontrivial=lambda l, o: not o.endswith(' 0'))
         for bits, o in zip(meta, outs):
             b = '' if bits == '-' else bits
+            if o.startswith(('RESULT-DEPENDS', 'ERR')):
+                continue         # (reported through the family marker / the correspondence)
             ph, f = o.split()
             inp = {'cmd': 'armor', 'bits': bits}
             if int(f) != (6 - len(b) % 6) % 6:
